@@ -27,15 +27,15 @@ theorem rebuildRoot_canonical (c : Cfg) (hc : c.emptyLabel.len = 0) (els : List 
     (hpf : C01.PrefixFree (asLeaves els 0))
     (hlen : ∀ x ∈ els, 1 ≤ x.1.length ∧ x.1.length ≤ 256) :
     Auditor.rebuildRoot c (els.map fun x => ⟨NodeLabel.ofBits x.1, x.2⟩) latest
-      = .ok (rootHashM c .noLeafEpoch (CRoot.ofLeaves (asLeaves els 0))) := by
-  sorry
+      = .ok (rootHashM c .noLeafEpoch (CRoot.ofLeaves (asLeaves els 0))) :=
+  Aud.rebuildRoot_canonical c hc els latest hpf hlen
 
 /-- the check added by the repair accepts exactly the well-formed prefix-free label sets -/
 theorem labelsPrefixFree_iff (ls : List NodeLabel) :
     Auditor.labelsPrefixFree ls = true ↔
       (∀ l ∈ ls, l.len ≤ 256 ∧ l.Normalised) ∧
-      ls.Pairwise (fun a b => ¬ a.bits <+: b.bits ∧ ¬ b.bits <+: a.bits) := by
-  sorry
+      ls.Pairwise (fun a b => ¬ a.bits <+: b.bits ∧ ¬ b.bits <+: a.bits) :=
+  Aud.labelsPrefixFree_iff ls
 
 /-- **audit soundness, one epoch** (full strength for the repaired auditor) -/
 theorem audit_sound (c : Cfg) (hc : c.Lawful) (hce : c.emptyLabel.len = 0) (hfresh : C05.EmptyLabelFresh c)
@@ -43,28 +43,37 @@ theorem audit_sound (c : Cfg) (hc : c.Lawful) (hce : c.emptyLabel.len = 0) (hfre
     (hl₁ : ∀ lf ∈ T₁.leaves, lf.lbl.length ≤ 256) (hl₂ : ∀ lf ∈ T₂.leaves, lf.lbl.length ≤ 256)
     (p : NodeStore.SingleAppendOnlyProof) (e : Nat)
     (hacc : Auditor.consecutive c p (T₁.rootHash c) (T₂.rootHash c) e = .ok ()) :
-    ∀ lf ∈ T₁.leaves, lf ∈ T₂.leaves := by
-  sorry
+    ∀ lf ∈ T₁.leaves, lf ∈ T₂.leaves :=
+  Aud.consecutive_sound c hc hce hfresh T₁ T₂ h₁ h₂ hl₁ hl₂ p e hacc
 
 /-- … lifted to `audit_verify` over any number of epochs: with `hashes[i]` the root hash of `Ts[i]` -/
 theorem audit_verify_sound (c : Cfg) (hc : c.Lawful) (hce : c.emptyLabel.len = 0) (hfresh : C05.EmptyLabelFresh c)
     (Ts : List CRoot) (hwf : ∀ t ∈ Ts, t.WF ∧ ∀ lf ∈ t.leaves, lf.lbl.length ≤ 256)
     (p : NodeStore.AppendOnlyProof)
     (hacc : Auditor.verify c (Ts.map (CRoot.rootHash c)) p = .ok ()) :
-    ∀ (i j : Nat), i ≤ j → ∀ (t₁ t₂ : CRoot), Ts[i]? = some t₁ → Ts[j]? = some t₂ → ∀ lf ∈ t₁.leaves, lf ∈ t₂.leaves := by
-  sorry
+    ∀ (i j : Nat), i ≤ j → ∀ (t₁ t₂ : CRoot), Ts[i]? = some t₁ → Ts[j]? = some t₂ → ∀ lf ∈ t₁.leaves, lf ∈ t₂.leaves :=
+  Aud.verify_sound c hc hce hfresh Ts hwf p hacc
 
 /-- inconsistent list lengths are rejected -/
 theorem length_mismatch_rejected (c : Cfg) (hashes : List Dig) (p : NodeStore.AppendOnlyProof)
     (h : p.epochs.length + 1 ≠ hashes.length ∨ p.epochs.length ≠ p.proofs.length) :
     Auditor.verify c hashes p ≠ .ok () := by
-  sorry
+  unfold Auditor.verify
+  rcases h with h | h
+  · rw [if_pos h]; intro h'; cases h'
+  · split
+    · intro h'; cases h'
+    · intro h'; cases h'
 
 /-- replacing a root hash by a different value makes verification fail -/
 theorem root_substitution_rejected (c : Cfg) (p : NodeStore.SingleAppendOnlyProof) (s e e' : Dig) (ep : Nat)
     (h : e ≠ e') :
     ¬ (Auditor.consecutive c p s e ep = .ok () ∧ Auditor.consecutive c p s e' ep = .ok ()) := by
-  sorry
+  rintro ⟨h1, h2⟩
+  have a := ((Aud.consecutive_ok c p s e ep).mp h1).2.2.2
+  have b := ((Aud.consecutive_ok c p s e' ep).mp h2).2.2.2
+  rw [a] at b
+  exact h (Except.ok.inj b)
 
 /-! ## the auditor of the pinned commit was not sound (defect D2) -/
 
@@ -87,17 +96,51 @@ def d2Proof (c : Cfg) : NodeStore.SingleAppendOnlyProof :=
                   ⟨NodeLabel.ofBits [true], c.leafHash (.raw [3]) 1⟩],
     inserted := [⟨NodeLabel.ofBits [false, false, false, true], .raw [9]⟩] }
 
+attribute [local instance] Aud.decEqResult
+
 theorem audit_unsound_witness :
     Auditor.consecutiveLegacy Cfg.whatsappV1 (d2Proof Cfg.whatsappV1) (d2T1.rootHash Cfg.whatsappV1)
         (d2T2Hash Cfg.whatsappV1) 2 = .ok () ∧
     Auditor.consecutiveLegacy Cfg.experimental (d2Proof Cfg.experimental) (d2T1.rootHash Cfg.experimental)
         (d2T2Hash Cfg.experimental) 2 = .ok () := by
-  sorry
+  exact ⟨by decide +kernel, by decide +kernel⟩
 
 /-- the repaired auditor rejects it -/
 theorem audit_witness_rejected :
     Auditor.consecutive Cfg.whatsappV1 (d2Proof Cfg.whatsappV1) (d2T1.rootHash Cfg.whatsappV1)
         (d2T2Hash Cfg.whatsappV1) 2 ≠ .ok () := by
-  sorry
+  decide +kernel
+
+/-! ### a stronger witness (added): the end hash is the root hash of a WELL-FORMED trie
+
+`d2T2Hash` above is the hash of a non-canonical tree (the rebuilt node "0" has a single child), so
+the witness above does not contradict the conclusion of `audit_sound` literally.  This one does:
+both hashes are root hashes of well-formed tries, the legacy auditor accepts, and two leaves of the
+first trie are missing from the second. -/
+
+def d2T2wf : CRoot :=
+  CRoot.ofLeaves [⟨[false, false, false], .raw [9], 2⟩, ⟨[false, true, true], .raw [10], 2⟩, ⟨[true], .raw [3], 1⟩]
+
+def d2ProofWf (c : Cfg) : NodeStore.SingleAppendOnlyProof :=
+  { unchanged := (d2Proof c).unchanged,
+    inserted := [⟨NodeLabel.ofBits [false, false, false], .raw [9]⟩,
+                 ⟨NodeLabel.ofBits [false, true, true], .raw [10]⟩] }
+
+theorem audit_unsound_witness_wf :
+    d2T1.WF ∧ d2T2wf.WF ∧
+    Auditor.consecutiveLegacy Cfg.whatsappV1 (d2ProofWf Cfg.whatsappV1) (d2T1.rootHash Cfg.whatsappV1)
+        (d2T2wf.rootHash Cfg.whatsappV1) 2 = .ok () ∧
+    Auditor.consecutiveLegacy Cfg.experimental (d2ProofWf Cfg.experimental) (d2T1.rootHash Cfg.experimental)
+        (d2T2wf.rootHash Cfg.experimental) 2 = .ok () ∧
+    (∃ lf ∈ d2T1.leaves, lf ∉ d2T2wf.leaves) :=
+  ⟨by decide +kernel, by decide +kernel, by decide +kernel, by decide +kernel,
+    ⟨[false, false], .raw [1], 1⟩, by decide +kernel, by decide +kernel⟩
+
+theorem audit_witness_wf_rejected :
+    Auditor.consecutive Cfg.whatsappV1 (d2ProofWf Cfg.whatsappV1) (d2T1.rootHash Cfg.whatsappV1)
+        (d2T2wf.rootHash Cfg.whatsappV1) 2 ≠ .ok () ∧
+    Auditor.consecutive Cfg.experimental (d2ProofWf Cfg.experimental) (d2T1.rootHash Cfg.experimental)
+        (d2T2wf.rootHash Cfg.experimental) 2 ≠ .ok () :=
+  ⟨by decide +kernel, by decide +kernel⟩
 
 end Akd.C09
